@@ -79,7 +79,7 @@ var vDefaultCfgProj = map[string]interface{}{
 }
 
 // nick spellings known to the harness (index = rid of a pseudo-client introduced under that spelling)
-var vNickTable = []string{"", "NickServ", "ChanServ", "Bot", "bot", "B[ot]", "b{ot}", "OperServ", "Global", "alice", "Alice", "bob", "carol", "dave", "b[ot]", "B[OT]"}
+var vNickTable = []string{"", "NickServ", "ChanServ", "Bot", "bot", "B[ot]", "b{ot}", "OperServ", "Global", "alice", "Alice", "bob", "carol", "dave", "b[ot]", "B[OT]", "Global.Notice", "4ever"}
 var vRid = map[uint64]int{}
 var vHord []int
 
@@ -136,6 +136,17 @@ func (e *vEntry) fill() {
 	}
 	if e.T != "line" {
 		return
+	}
+	// scenario placeholders: correctly signed tokens that are too old by ten years, by more than a 64-bit count
+	// of nanoseconds can express (the difference to "now" wraps around), and the smallest timestamp there is
+	for ph, stamp := range map[string]string{
+		"CAPTCHA-OLD10Y":  fmt.Sprint((e.Ts - 315360000) * 1000000000),
+		"CAPTCHA-ANCIENT": "-9000000000000000000",
+		"CAPTCHA-MININT":  "-9223372036854775808",
+	} {
+		if strings.Contains(e.Data, ph) {
+			e.Data = strings.Replace(e.Data, ph, vToken("okay:join:"+stamp+":x"), 1)
+		}
 	}
 	if strings.Contains(e.Data, "CAPTCHA") { // scenario placeholder: a valid, fresh token
 		e.Data = strings.Replace(e.Data, "CAPTCHA", vToken(fmt.Sprintf("okay:join:%d:x", e.Ts*1000000000)), 1)
